@@ -76,10 +76,10 @@ type rawProc struct {
 	final    chan struct{}
 }
 
-func (p *rawProc) Start()                              {}
-func (p *rawProc) PID() *actor.PID                     { return nil }
-func (p *rawProc) Send(*actor.PID, any, *actor.PID)    {}
-func (p *rawProc) Shutdown()                           {}
+func (p *rawProc) Start()                           {}
+func (p *rawProc) PID() *actor.PID                  { return nil }
+func (p *rawProc) Send(*actor.PID, any, *actor.PID) {}
+func (p *rawProc) Shutdown()                        {}
 func (p *rawProc) Invoke(msgs []actor.Envelope) {
 	if atomic.AddInt32(&p.inflight, 1) != 1 {
 		atomic.AddInt32(&p.overlaps, 1)
